@@ -31,12 +31,13 @@ SPEC = dict(
          "distinct = distinct op lines; every generated line is non-trivial (a routine call on concrete entries); "
          "tags = <routine>:<matrix family>, families: dense, sparse, strongly-regular (all leading minors non-zero), "
          "rank-deficient (product of thin factors), zero-leading-minor, zero-column, spd, sym-ldl, triangular, "
-         "identity-or-zero, near-sym-or-diag, dominance-boundary, orthonormal-rational (QR), empty (0x0, 0xn, nx0)",
+         "identity-or-zero, near-sym-or-diag, dominance-boundary, orthonormal-rational (QR), empty (0x0, 0xn, nx0), "
+         "leading-zero / leading-zero-fixed (first pivot found late), *_alias (output matrix is an operand)",
     not_covered=[
         "entries other than Integer/Rational (symbols, Gaussian rationals, floats): the model's entry type is Q+{zoo,nan}",
         "results containing irrational square roots (Cholesky/QR of generic input) and the zoo+nan / nan/0 "
         "combinations (C06 defects): the model prints SKIP, only the oracle's multiply-back checks apply there",
-        "aliasing calls (mul_dense_dense with C aliasing A or B), submatrix with step 0, eye() with a diagonal "
+        "transpose_dense with output == input (unprotected in the library), submatrix with step 0, eye() with a diagonal "
         "outside the matrix (huge allocation), jacobian/diff/eigen_values, CSR matrices (C25), "
         "DenseMatrix::rank() (throws NotImplementedError; rank is taken from reduced_row_echelon_form)",
         "fraction_free_gauss_jordan_elimination on matrices with fewer rows than columns (reads past the storage; "
